@@ -146,7 +146,7 @@ LAYOUTS = (
     + [("elif", "code", 0)]
     + [(k, s, j) for k in ("code", "modcode") for (s, j) in (("inline", 0), ("inline", 1), ("lead", 1), ("lead", 2), ("lead2", 2))]
     + [(k, s, j) for k in ("def", "block", "page", "call") for (s, j) in (("code", 0), ("code", 1), ("code", 2), ("tagattr", 1), ("tagattr", 2))]
-    + [("nscall", s, j) for (s, j) in (("code", 0), ("code", 1), ("code", 2), ("tagattr", 1), ("tagattr", 2), ("selfclose", 0))]
+    + [("nscall", s, j) for (s, j) in (("code", 0), ("code", 1), ("code", 2), ("tagattr", 1), ("tagattr", 2), ("selfclose", 0), ("unsorted", 1))]
 )
 KINDS = ["expr", "exprf", "filtarg", "if", "elif", "for", "while", "code", "modcode", "def", "block", "page", "call", "nscall"]
 TOP_ONLY = ("modcode", "page")
@@ -227,7 +227,14 @@ def build(al, layout, parts, n=""):
             op, extra, attr, close = "<%call", ' args="q"', ' expr="' + f + "(" + py + ')"', ">t</%call>"
         else:
             op, extra, close = "<%ns:d" + n, ' b="1"', ("/>" if style == "selfclose" else ">t</%ns:d" + n + ">")
-            if style == "tagattr" and len(parts) > 1:
+            if style == "unsorted":
+                # attribute names written against alphabetical order; the first value holds a line break, so the
+                # call in the second value is written on the following line
+                if len(parts) > 1:
+                    attr = ' z="${[0,\n' + parts[0] + ']}" a="${' + parts[1] + '}"'
+                else:
+                    attr = ' z="${[0,\n0]}" a="${' + parts[0] + '}"'
+            elif style == "tagattr" and len(parts) > 1:
                 # one attribute per line
                 attr = ' a="${' + parts[0] + '}"' + "".join('\n c%d="${%s}"' % (i, p) for i, p in enumerate(parts[1:]))
                 tagoffs = [j + i for i in range(len(parts))]
@@ -1329,7 +1336,52 @@ def reused_sequences():
             for b in LINGUA_FILE:
                 if a != b:
                     seqs.append(("lingua", m, "encoding", [a, b]))
+    # a tagged comment still waiting for its construct when one document ends must not reach the next document
+    for ext, m in (("lingua", "update_config"), ("lingua", "config-assignment"), ("babel", "config-assignment")):
+        for a in PENDING_FIRST:
+            for b in PENDING_SECOND:
+                seqs.append((ext, m, "pending-comment", [a, b]))
+                seqs.append((ext, m, "pending-comment", [a, b, a, b]))
     return seqs
+
+
+PENDING_FIRST = ["comment-at-eof", "comment-then-text", "comment-inside-def-at-its-end", "comment-then-doc-section", "two-comment-lines-at-eof"]
+PENDING_SECOND = ["message-on-line-1", "message-on-line-2", "plain-comment-then-message", "message-late", "block-on-line-1"]
+
+
+def pending_doc(al, enc, kind, base):
+    w = al.plain(enc)
+    stale = "%s %sstale" % (al.tag, w)
+    A = construct(al, enc, ("expr", "code", 0), "u", base=base + "a", n="1")
+    own = "%s %sown" % (al.tag, w)
+    planted = []
+    if kind in PENDING_FIRST:
+        text = "## " + own + "\n" + A["main"] + "\n" + al.filler + "\n"
+        for k in A["calls"]:
+            planted.append(dict(k, req=[own], opt=[], arr="own"))
+        text += {
+            "comment-at-eof": "## " + stale + "\n",
+            "comment-then-text": "## " + stale + "\n" + al.filler + "\n" + al.filler + "\n",
+            "comment-inside-def-at-its-end": '<%def name="zd()">\n' + al.filler + "\n## " + stale + "\n</%def>\n",
+            "comment-then-doc-section": "## " + stale + "\n<%doc>\n" + al.filler + "\n</%doc>\n",
+            "two-comment-lines-at-eof": "## " + stale + "\n## " + w + "more\n",
+        }[kind]
+    else:
+        head = {
+            "message-on-line-1": "",
+            "message-on-line-2": al.filler + "\n",
+            "plain-comment-then-message": "## " + w + "plain\n",
+            "message-late": (al.filler + "\n") * 9,
+            "block-on-line-1": "",
+        }[kind]
+        if kind == "block-on-line-1":
+            A = construct(al, enc, ("code", "lead", 1), "2l", base=base + "b", n="2")
+        text = head + A["main"] + "\n" + al.filler + "\n"
+        for k in A["calls"]:
+            planted.append(dict(k, req=[], opt=[], arr="none"))
+    doc = finish_doc(text, "lf", planted, {}, {"reused": True})
+    doc["tags"] = [al.tag]
+    return doc
 
 
 def tag_doc(al, enc, configured, base):
@@ -1355,6 +1407,13 @@ def reused_case(al, seq):
     ext, method, changed, names = seq
     docs = []
     for i, name in enumerate(names):
+        if changed == "pending-comment":
+            enc = "utf-8"
+            cfg = {"name": "reused/" + name, "enc": enc, "transport": "fileobj" if ext == "lingua" else "bytes", "options": {"encoding": "utf-8"}}
+            d = pending_doc(al, enc, name, "s%d" % i)
+            d.update(ext=ext, cfg=cfg)
+            docs.append(d)
+            continue
         if changed == "comment-tags":
             enc, configured = "utf-8", TAGSETS[name]
             cfg = {"name": "reused/" + name, "enc": enc, "transport": "fileobj" if ext == "lingua" else "bytes", "options": {"encoding": "utf-8"}}
